@@ -55,7 +55,6 @@ struct Path {
   void to(CX w) {
     for (int it = 0; it < 40; ++it) {
       CX d = (E.psi(phi) - w) / E.dpsi(phi);
-      // the imaginary part of 2 atanh(.) is defined modulo 2 pi: take the representative nearest to the target
       phi -= d;
       if (!(std::abs(d) == std::abs(d))) { fail = true; return; }
       if (std::abs(d) < 4e-19L * (1 + std::abs(phi))) return;
